@@ -277,7 +277,8 @@ func c10(e *Env) {
 		} else if t, ok := expectTokens[in.self.addr+">"+in.self.addr]; ok && nPeers > 0 && !(nPeers == 1 && in.inList && true && len(list) == 1 && selfInList) {
 			wantLocal["tokens"] = t
 		}
-		for col, want := range wantLocal {
+		for _, col := range sortedKeysAny(wantLocal) {
+			want := wantLocal[col]
 			if fmt.Sprint(in.local[col]) != fmt.Sprint(want) {
 				fail("local-value-wrong("+col+")", fmt.Sprintf("%s: system.local.%s is %v, the configuration/backend says %v", who, col, in.local[col], want))
 				return
@@ -333,7 +334,8 @@ func c10(e *Env) {
 			} else if t, ok := expectTokens[in.self.addr+">"+cfgp.addr]; ok {
 				want["tokens"] = t
 			}
-			for col, wv := range want {
+			for _, col := range sortedKeysAny(want) {
+				wv := want[col]
 				if fmt.Sprint(row[col]) != fmt.Sprint(wv) {
 					fail("peers-value-wrong("+col+")", fmt.Sprintf("%s: system.peers[%s].%s is %v, the configuration says %v", who, cfgp.addr, col, row[col], wv))
 					return
@@ -493,4 +495,13 @@ func c10selectDup(w *world.World, cl *world.Client, text string) ([]string, [][]
 		rows = append(rows, cells)
 	}
 	return names, rows, ""
+}
+
+func sortedKeysAny(m map[string]interface{}) []string {
+	k := make([]string, 0, len(m))
+	for x := range m {
+		k = append(k, x)
+	}
+	sort.Strings(k)
+	return k
 }
